@@ -930,6 +930,57 @@ def rule_r17(ctx) -> RuleResult:
                   "parse() raises for a document that puts such a node where the table parser looks for attributes", min_instances=1)
 
 
+def rule_r18(ctx) -> RuleResult:
+    """text_fn appends the link trail -- group 1 of `linktrailing_re` matched against the text after `]]` -- straight to the
+    children of a LINK node that is already closed; that string is never merged or finalised again.  The text it is matched
+    against can contain placeholder characters (the `<nowiki/>` marker, the bracket escapes, cookies).  So group 1 must not be
+    able to consume one: language inclusion  L(group 1) ⊆ (Σ minus the placeholder range)*  (seed C01-9A: `\w+` widened to
+    "any non-ASCII character except punctuation", which takes in the private-use plane)."""
+    import re as _re
+    import re._constants as _c
+    from ..core import rx
+
+    rr = RuleResult("C01.R18", "the link-trail pattern cannot consume a placeholder character", min_instances=1)
+    init = ctx.fn("core.Wtp.__init__")
+    pats = [n.value for n in walk_no_nested(init) if isinstance(n, ast.Assign) and len(n.targets) == 1 and unparse(n.targets[0]) == "self.linktrailing_re"]
+    if len(pats) != 1:
+        raise AnalysisError("Wtp.__init__: the default of linktrailing_re was not found")
+    try:
+        pat = ctx.index.fold("core", pats[0])
+    except Exception:  # noqa: BLE001
+        raise AnalysisError("Wtp.__init__: linktrailing_re is not a foldable pattern")
+    pat = str(getattr(pat, "pattern", pat))
+    tree = rx.parse(pat)
+    g1 = None
+    for op, av in tree:
+        if op is _c.SUBPATTERN and av[0] == 1:
+            g1 = av[3]
+    if g1 is None:
+        raise AnalysisError("linktrailing_re: group 1 not found at the top level of {!r}".format(pat))
+    lo = ctx.index.const("common", "MAGIC_NUMBER")
+    hi = ctx.index.const("common", "MAGIC_LAST")
+    safe = "(?s)[^{}-{}]*".format(_re.escape(chr(lo)), _re.escape(chr(hi)))
+    cex = rx.included_in_prefix(pat, safe, thorough=ctx.thorough, flags_a=tree.state.flags, items_a=list(g1), full=True)
+    if cex is None:
+        rr.ok("core.Wtp.__init__", "group 1 of {!r} matches no placeholder character".format(pat), {"pattern": pat})
+    else:
+        rr.bad(Finding("C01.R18", "src/wikitextprocessor/core.py", "core.Wtp.__init__", "linktrailing_re = {!r}".format(pat)[:90],
+                       "group 1 can match {!r}, which contains a placeholder character (U+{:X}): text_fn appends that match to the children "
+                       "of an already closed LINK node, which are never finalised again, so the placeholder stays in the tree "
+                       "(`[[cat]]s<nowiki/>...`)".format(cex, max(ord(ch) for ch in cex)), pats[0].lineno))
+    return rr
+
+
+def rule_r19(ctx) -> RuleResult:
+    """TemplateNode.template_name cuts a name that starts with a namespace prefix at `name.index(":")`; a prefix without the
+    separator makes that raise out of parse() (shared with C10.R19)."""
+    from ..core.report import shared
+    from . import c10
+
+    return shared(c10.rule_r19(ctx), "C01.R19", "every namespace prefix ends with its separator (shared with C10.R19)",
+                  "parse() raises ValueError for a template whose name starts with the bare namespace word", min_instances=1)
+
+
 def run(ctx) -> list:
-    return [rule_r1(ctx), rule_r2(ctx), rule_r3(ctx), rule_r4(ctx), rule_r5(ctx), rule_r6(ctx), rule_r7(ctx), rule_r8(ctx),
+    return [rule_r18(ctx), rule_r19(ctx), rule_r1(ctx), rule_r2(ctx), rule_r3(ctx), rule_r4(ctx), rule_r5(ctx), rule_r6(ctx), rule_r7(ctx), rule_r8(ctx),
             rule_r9(ctx), rule_r10(ctx), rule_r11(ctx), rule_r12(ctx), rule_r13(ctx), rule_r14(ctx), rule_r15(ctx), rule_r16(ctx), rule_r17(ctx)]
